@@ -198,6 +198,21 @@ func (r *rec) sx() Sx {
 	return List(Int(r.a), Int(r.b), ListOf(l))
 }
 
+// lockCalledByClient: the innermost frame below the sync/runtime frames belongs to the RPC client,
+// i.e. the mutex the goroutine waits for is the client's own.
+func lockCalledByClient(text string) bool {
+	for _, l := range strings.Split(text, "\n") {
+		if l == "" || l[0] == '\t' {
+			continue
+		}
+		if strings.HasPrefix(l, "sync.") || strings.HasPrefix(l, "runtime.") || strings.HasPrefix(l, "internal/") {
+			continue
+		}
+		return strings.Contains(l, "qnet.(*RpcClient).")
+	}
+	return false
+}
+
 func flatLen(ops Sx) int {
 	n := 0
 	for i := 0; i < ops.Len(); i++ {
@@ -229,7 +244,7 @@ func (h *hist) watch(done chan struct{}, ownerGid *int32) (stuck, slow bool) {
 		gid := int(atomic.LoadInt32(ownerGid))
 		d := GDump()
 		g := d[gid]
-		if g == nil || g.State != "sync.Mutex.Lock" || !strings.Contains(g.Text, "qnet.(*RpcClient)") {
+		if g == nil || g.State != "sync.Mutex.Lock" || !lockCalledByClient(g.Text) {
 			continue
 		}
 		others := true
@@ -540,7 +555,9 @@ func genHistory(rng *Rng) Sx {
 	for i := 0; i < n; i++ {
 		switch k := rng.Intn(20); {
 		case k < 8:
-			adj := rng.PickI64(0, 0, 0, 1000, 5000, 30000)
+			// -5000: the deadline is already past in real time as well (a response before the next
+			// sweep still finds the call in the table and completes it)
+			adj := rng.PickI64(0, 0, 0, 1000, 5000, 30000, -5000, -5000)
 			ops = append(ops, Ints(0, int64(rng.Intn(10)/7), adj))
 			if adj == 0 {
 				adj = 60000
@@ -596,10 +613,22 @@ func genHistory(rng *Rng) Sx {
 			if rng.Chance(1, 2) {
 				// a sweep (and more) lands while ReapTimeout is working through its batch
 				now := sweeps[rng.Intn(len(sweeps))]
-				nested := []Sx{Ints(2, now)}
+				var nested []Sx
+				if rng.Bool() { // the usual "retry on REQUEST_TIMEOUT": the callback calls again
+					nadj := rng.PickI64(0, 1000, -5000)
+					nested = append(nested, Ints(0, 0, nadj))
+					if nadj == 0 {
+						nadj = 60000
+					}
+					m.call(nadj)
+				}
+				nested = append(nested, Ints(2, now))
 				m.sweep(now)
 				if rng.Bool() {
 					nested = append(nested, Ints(3))
+				}
+				if rng.Bool() && len(m.out) > 0 {
+					nested = append(nested, Ints(1, int64(m.out[rng.Intn(len(m.out))]), rid+3000, 0, 1))
 				}
 				ops = append(ops, List(Int(3), Int(int64(rng.Range(1, 3))), ListOf(nested)))
 			} else {
@@ -635,7 +664,7 @@ func genNested(rng *Rng) Sx {
 		n := rng.Range(1, 4)
 		var seqs []uint16
 		for i := 0; i < n; i++ {
-			ops = append(ops, Ints(0, 0, rng.PickI64(0, 1000, 5000)))
+			ops = append(ops, Ints(0, int64(rng.Intn(3)/2), rng.PickI64(0, 1000, 5000, -5000, -5000)))
 			seqs = append(seqs, m.call(0))
 		}
 		x := rng.Intn(n)
@@ -655,7 +684,11 @@ func genNested(rng *Rng) Sx {
 			ops = append(ops, Ints(0, int64(rng.Intn(4)/3), 5000))
 		}
 		ops = append(ops, Ints(2, 2000))
-		ops = append(ops, List(Int(3), Int(int64(rng.Range(1, 2))), ListOf([]Sx{Ints(2, 6000)})))
+		nested := []Sx{Ints(2, 6000)}
+		if rng.Bool() { // the timeout callback calls again and looks at the table
+			nested = []Sx{Ints(0, 0, rng.PickI64(0, 1000)), Ints(2, 6000), Ints(1, 0, 60, 0, 1)}
+		}
+		ops = append(ops, List(Int(3), Int(int64(rng.Range(1, 2))), ListOf(nested)))
 		ops = append(ops, Ints(3), Ints(2, 200000), Ints(3))
 	}
 	return List(Uint(uint64(c0)), ListOf(ops))
